@@ -439,3 +439,63 @@ def combo_worker(job):
         return out
     finally:
         case.cleanup()
+
+
+def fusion_pair_worker(job):
+    """three genes; TWO fusion records that leave the donor at the SAME breakpoint for different
+    acceptors (STAR-Fusion reports such rows for multi-mapping partners).  Metamorphic: the run
+    with both records must report the union of the two single-record runs."""
+    seed, tier, opts = job
+    rng = random.Random(seed)
+    out = {'stats': {}, 'seed': seed}
+    case = gen_ref.Case(gen_ref.work_dir('fpair'))
+    try:
+        import copy
+        import random as _r
+        from moPepGen import fake
+        with gen_ref.quiet():
+            gen_ref.make_reference(case, seed, 3)
+            genome, anno, _ = gen_ref.load_reference(case)
+        txs = list(anno.transcripts.keys())
+        donor = txs[rng.randrange(len(txs))]
+        fus = {}
+        for _ in range(200):
+            _r.seed(rng.randrange(1 << 30))
+            try:
+                f = fake.fake_fusion(anno, genome, donor)
+            except Exception:   # noqa
+                continue
+            fus.setdefault(f.attrs['ACCEPTER_TRANSCRIPT_ID'], f)
+            if len(fus) >= 2:
+                break
+        if len(fus) < 2:
+            out['stats']['no_two_acceptors'] = 1
+            return out
+        accs = sorted(fus)
+        f1, f2 = fus[accs[0]], copy.deepcopy(fus[accs[1]])
+        f2.location = copy.deepcopy(f1.location)
+        f2.ref = f1.ref
+        f2.id = f"FUSION-{donor}:{int(f1.location.start)}-{accs[1]}:{f2.attrs['ACCEPTER_POSITION']}"
+        for k in ('LEFT_INSERTION_START', 'LEFT_INSERTION_END'):
+            if k in f1.attrs:
+                f2.attrs[k] = f1.attrs[k]
+            else:
+                f2.attrs.pop(k, None)
+        small = gen_ref.dense_variants(anno, genome, donor, rng, rng.randint(0, 2), max_size=3, window=200)
+        kw = cv_explore.default_kw(rng, True, None)
+        out['desc'] = {'seed': seed, 'kw': kw, 'donor': donor, 'fusions': [f1.id, f2.id]}
+        runs = {}
+        for tag, recs in (('first', [f1]), ('second', [f2]), ('both', [f1, f2])):
+            with gen_ref.quiet():
+                gen_ref.write_gvfs(case, small + recs)
+            r = gen_ref.run_call_variant(case, tag=tag, **kw)
+            runs[tag] = {'status': r.status, 'real': sorted(r.fasta.keys())}
+        out['runs'] = runs
+        out['stats']['runs'] = 1
+        return out
+    except Exception:   # noqa
+        out['stats']['worker_error'] = 1
+        out['error'] = traceback.format_exc()[-1500:]
+        return out
+    finally:
+        case.cleanup()
